@@ -367,7 +367,7 @@ theorem Inv.connected {e : Emu} {b0 : Bay} (hc : e.shape.connect = .ok b0) (hs :
     · rfl
     · have := (hb.topo.wf.dirtyIff c).mpr hx
       rw [hb.dirty] at this; cases this
-  refine ⟨hb.topo.wf, rfl, rfl, hclean, ?_, hmir, ?_⟩
+  refine ⟨hb.topo.wf, rfl, rfl, hclean, ?_, hmir, ?_, fun _ _ => rfl⟩
   · constructor
     · intro mi m i hm hi
       have ht := hb.isTrack hm
